@@ -160,3 +160,11 @@ Definition render (root : bytes) (e : aev) : ev :=
 Definition wf_fs (f : fs) : Prop :=
   NoDup (map e_path f) /\
   forall e, In e f -> e_path e <> [] /\ (parent (e_path e) = [] \/ fs_isdir f (parent (e_path e)) = true).
+
+(* the paths an operation names *)
+Definition op_paths (o : op) : list path :=
+  match o with
+  | OCreate p _ | OMkdir p _ | OWrite p | OChmod p | OUnlink p | ORmdir p | OMoveOut p => [p]
+  | ORename s d => [s; d]
+  | OMoveIn d _ _ _ => [d]
+  end.
